@@ -20,6 +20,7 @@ import (
 	"runtime/pprof"
 	"sort"
 	"strconv"
+	"strings"
 	"sync"
 	"time"
 )
@@ -260,6 +261,15 @@ func parentMain(args []string) int {
 		units[i].Prop = prop
 		units[i].Tier = tier
 		units[i].Seed = seed
+	}
+	if only := os.Getenv("VERIF_ONLY_UNIT"); only != "" { // development aid: run the units whose name contains this
+		var keep []Unit
+		for _, u := range units {
+			if strings.Contains(u.Name, only) {
+				keep = append(keep, u)
+			}
+		}
+		units = keep
 	}
 	a := &agg{findings: map[string]Finding{}, sigCount: map[string]int{}, stats: map[string]int64{},
 		hashes: map[string]struct{}{}, outcomes: map[string]struct{}{}, notes: map[string]int{}, extra: map[string]any{}}
